@@ -21,6 +21,16 @@ namespace DFS { bool verbose = false; }
 #ifndef CMD_ENTRIES
 #define CMD_ENTRIES 2
 #endif
+// CMD_WATFORD: the disc is a Watford DFS disc (62-file catalogue in sectors 0-3; the second half, sectors 2-3, is empty)
+#ifdef CMD_WATFORD
+#define CAT_SECTORS 4u
+#define CAT_SLOTS 62u
+#define CMD_FORMAT DFS::Format::WDFS
+#else
+#define CAT_SECTORS 2u
+#define CAT_SLOTS 31u
+#define CMD_FORMAT DFS::Format::DFS
+#endif
 
 namespace {
 struct MemDrive : public DFS::AbstractDrive
@@ -32,7 +42,12 @@ struct MemDrive : public DFS::AbstractDrive
     if (lba >= total) return std::nullopt;
     if (lba == 0) return s0;
     if (lba == 1) return s1;
-    return DFS::SectorBuffer();
+    DFS::SectorBuffer b = DFS::SectorBuffer();
+#ifdef CMD_WATFORD
+    if (lba == 2) for (unsigned i = 0; i < 8; ++i) b[i] = 0xAA;           // Watford recognition bytes; sector 3: no entries, same total
+    if (lba == 3) { b[6] = s1[6] & 3; b[7] = s1[7]; }
+#endif
+    return b;
   }
   DFS::Geometry geometry() const override { return DFS::Geometry(80, 1, 10, DFS::Encoding::FM); }
   std::string description() const override { return std::string("mem"); }
@@ -51,7 +66,7 @@ void make_disc(MemDrive& d, Disc& k)
 {
   d.s0 = DFS::SectorBuffer(); d.s1 = DFS::SectorBuffer();
   k.n = CMD_ENTRIES;        // the number of entries is a constant per query: vectors of symbolic length are out of reach (measured: out of memory)
-  k.total = vf_nondet_u16(); vf_assume(k.total >= 3 && k.total <= 800);
+  k.total = vf_nondet_u16(); vf_assume(k.total >= CAT_SECTORS + 1 && k.total <= 800);
   d.total = 800;
   d.s1[5] = static_cast<DFS::byte>(8 * k.n);
   d.s1[6] = static_cast<DFS::byte>((k.total >> 8) & 3);
@@ -63,7 +78,7 @@ void make_disc(MemDrive& d, Disc& k)
       k.secs[i] = (k.len[i] + 255) / 256;
       if (i < k.n)
         {
-          vf_assume(k.start[i] >= 2 && k.start[i] + k.secs[i] <= limit);
+          vf_assume(k.start[i] >= CAT_SECTORS && k.start[i] + k.secs[i] <= limit);
 #ifdef KF_NO_EMPTY_FILES
           vf_assume(k.len[i] != 0);
 #endif
@@ -104,7 +119,7 @@ bool cout_num(unsigned k, unsigned long *val, unsigned *base)
 static MemDrive *the_drive;
 std::optional<DFS::VolumeMountResult> stub_mount(const DFS::StorageConfiguration *, const DFS::VolumeSelector&, std::string&)
 {
-  DFS::Volume *v = new DFS::Volume(DFS::Format::DFS, 0, 0, 800, *the_drive);
+  DFS::Volume *v = new DFS::Volume(CMD_FORMAT, 0, 0, 800, *the_drive);
   return DFS::VolumeMountResult(std::unique_ptr<DFS::FileSystem>(), v);
 }
 
@@ -117,7 +132,7 @@ extern "C" void h_cmd_free(void)
   the_drive = &drive;
 #ifdef VF_NATIVE
   // the native build (replay / translator validation) has no call redirection: attach the drive for real
-  { std::vector<std::optional<DFS::DriveConfig>> drives; drives.emplace_back(DFS::DriveConfig(DFS::Format::DFS, &drive)); storage.connect_drives(drives, DFS::DriveAllocation::FIRST); }
+  { std::vector<std::optional<DFS::DriveConfig>> drives; drives.emplace_back(DFS::DriveConfig(CMD_FORMAT, &drive)); storage.connect_drives(drives, DFS::DriveAllocation::FIRST); }
 #endif
   DFS::DFSContext ctx('$', DFS::VolumeSelector(0));
   CommandFree cmd;
@@ -127,9 +142,9 @@ extern "C" void h_cmd_free(void)
   vf_assert(!threw && ok, "free succeeds on a well-formed disc");
   collect_nums();
   // expected figures
-  unsigned used = 2;
+  unsigned used = CAT_SECTORS;
   for (unsigned i = 0; i < CMD_ENTRIES; ++i) if (i < k.n && k.start[i] + k.secs[i] > used) used = k.start[i] + k.secs[i];
-  const unsigned long want[6] = { 31u - k.n, k.total - used, (k.total - used) * 256ul, k.n, used, used * 256ul };
+  const unsigned long want[6] = { CAT_SLOTS - k.n, k.total - used, (k.total - used) * 256ul, k.n, used, used * 256ul };
   for (unsigned j = 0; j < 6; ++j)
     {
       unsigned long v = 0; unsigned base = 0;
@@ -155,7 +170,7 @@ extern "C" void h_cmd_space(void)
   the_drive = &drive;
 #ifdef VF_NATIVE
   // the native build (replay / translator validation) has no call redirection: attach the drive for real
-  { std::vector<std::optional<DFS::DriveConfig>> drives; drives.emplace_back(DFS::DriveConfig(DFS::Format::DFS, &drive)); storage.connect_drives(drives, DFS::DriveAllocation::FIRST); }
+  { std::vector<std::optional<DFS::DriveConfig>> drives; drives.emplace_back(DFS::DriveConfig(CMD_FORMAT, &drive)); storage.connect_drives(drives, DFS::DriveAllocation::FIRST); }
 #endif
   DFS::DFSContext ctx('$', DFS::VolumeSelector(0));
   CommandSpace cmd;
@@ -166,7 +181,7 @@ extern "C" void h_cmd_space(void)
   collect_nums();
   // expected: the runs of unallocated sectors in ascending disc order: catalogue..lowest file, between files, last file..end
   unsigned gaps[CMD_ENTRIES + 1]; unsigned ng = 0; unsigned long sum = 0;
-  unsigned pos = 2;
+  unsigned pos = CAT_SECTORS;
   for (unsigned j = 0; j < CMD_ENTRIES; ++j)
     {
       const unsigned i = CMD_ENTRIES - 1 - j;           // catalogue order is descending by start sector
@@ -188,5 +203,69 @@ extern "C" void h_cmd_space(void)
   if (ng == CMD_ENTRIES + 1) vf_witness("gap before, between and after the files");
 #if CMD_ENTRIES > 0
   if (ng == 0) vf_witness("no free space at all");
+#endif
+}
+
+// ---------------------------------------------------------------- C14-S4: sector map (Catalog::map_sectors)
+// SectorMap::add_catalog_sector / add_file_sectors are replaced (ir2c --replace) by these recorders: the real ones
+// insert one std::map node per sector.  What is checked is which sector ranges the REAL Catalog::map_sectors
+// attributes to the catalogue and to each file.
+namespace maprec {
+unsigned ncat; unsigned long cat[6];
+unsigned nfile; unsigned long fbegin[CMD_ENTRIES + 1], fend[CMD_ENTRIES + 1]; char fname1[CMD_ENTRIES + 1];
+void stub_add_catalog_sector(DFS::SectorMap *, DFS::sector_count_type where, const DFS::VolumeSelector&)
+{ if (ncat < 6) cat[ncat] = where; ++ncat; }
+void stub_add_file_sectors(DFS::SectorMap *, DFS::sector_count_type begin, DFS::sector_count_type end, const DFS::ParsedFileName& name)
+{
+  if (nfile < CMD_ENTRIES + 1) { fbegin[nfile] = begin; fend[nfile] = end; fname1[nfile] = name.name.size() > 1 ? name.name[1] : '?'; }
+  ++nfile;
+}
+}
+extern "C" void h_map_sectors(void)
+{
+  MemDrive drive; Disc k;
+  make_disc(drive, k);
+  DFS::Volume vol(CMD_FORMAT, 0, 0, 800, drive);
+  DFS::SectorMap map(false);
+  const unsigned long origin = vf_nondet_u16();          // where the volume's data region starts on the surface
+#ifdef VF_NATIVE
+  // no call redirection in the native build: derive the recorded calls from the real map
+  vol.root().map_sectors(DFS::VolumeSelector(0), origin, origin, &map);
+  for (unsigned long sec = 0; sec < 70000ul + 800; ++sec)
+    {
+      auto l = map.at(static_cast<DFS::sector_count_type>(sec));
+      if (!l) continue;
+      if (*l == "catalog") { if (maprec::ncat < 6) maprec::cat[maprec::ncat] = sec; ++maprec::ncat; continue; }
+      unsigned long e = sec; while (map.at(static_cast<DFS::sector_count_type>(e + 1)) && *map.at(static_cast<DFS::sector_count_type>(e + 1)) == *l) ++e;
+      if (maprec::nfile < CMD_ENTRIES + 1) { maprec::fbegin[maprec::nfile] = sec; maprec::fend[maprec::nfile] = e + 1; maprec::fname1[maprec::nfile] = (*l)[3]; }
+      ++maprec::nfile; sec = e;
+    }
+#else
+  vol.root().map_sectors(DFS::VolumeSelector(0), origin, origin, &map);
+#endif
+  vf_assert(maprec::ncat == CAT_SECTORS, "every catalogue sector is labelled as catalogue");
+  for (unsigned i = 0; i < 4; ++i) if (i < CAT_SECTORS) vf_assert(maprec::cat[i] == origin + i, "the catalogue occupies the first sectors of the volume");
+  // files with a body, each exactly once with exactly its sectors; zero-length files own no sector
+  unsigned want = 0;
+  for (unsigned i = 0; i < CMD_ENTRIES; ++i) if (k.len[i] != 0) ++want;
+  vf_assert(maprec::nfile == want, "one range per file that has a body; a zero-length file owns no sector");
+  for (unsigned i = 0; i < CMD_ENTRIES; ++i)
+    if (k.len[i] != 0)
+      {
+        bool found = false;
+        for (unsigned j = 0; j < CMD_ENTRIES; ++j)
+          if (j < maprec::nfile && maprec::fname1[j] == static_cast<char>('0' + i))
+            {
+              found = true;
+              vf_assert(maprec::fbegin[j] == origin + k.start[i] && maprec::fend[j] == origin + k.start[i] + k.secs[i], "a file owns exactly the sectors start .. start + ceil(length/256) - 1");
+            }
+        vf_assert(found, "every file with a body is in the map");
+      }
+  vf_observe(maprec::nfile); vf_observe(maprec::ncat);
+#if CMD_ENTRIES > 1
+  if (k.len[0] == 0 && k.len[1] != 0) vf_witness("a zero-length file next to a file with a body");
+  if (want == CMD_ENTRIES) vf_witness("all files have bodies");
+#else
+  vf_witness("no files");
 #endif
 }
